@@ -226,12 +226,42 @@ class _PlainAssign(ast.NodeTransformer):
         return node
 
 
+def _acquire_release_to_with(body):
+    """`L.acquire(); try: BODY finally: L.release()`  ->  `with L: BODY`  (recursively in nested blocks)."""
+    i = 0
+    changed = False
+    while i < len(body):
+        st = body[i]
+        nxt = body[i + 1] if i + 1 < len(body) else None
+        if isinstance(st, ast.Expr) and isinstance(st.value, ast.Call) and isinstance(st.value.func, ast.Attribute) and \
+                st.value.func.attr == 'acquire' and not st.value.args and not st.value.keywords and \
+                isinstance(nxt, ast.Try) and not nxt.handlers and not nxt.orelse and len(nxt.finalbody) == 1:
+            fin = nxt.finalbody[0]
+            lock = st.value.func.value
+            if isinstance(fin, ast.Expr) and isinstance(fin.value, ast.Call) and isinstance(fin.value.func, ast.Attribute) and \
+                    fin.value.func.attr == 'release' and not fin.value.args and \
+                    ast.unparse(fin.value.func.value) == ast.unparse(lock):
+                w = ast.With(items=[ast.withitem(context_expr=lock, optional_vars=None)], body=nxt.body, type_comment=None)
+                body[i:i + 2] = [ast.copy_location(w, st)]
+                changed = True
+                continue
+        for field in ('body', 'orelse', 'finalbody'):
+            sub = getattr(st, field, None)
+            if isinstance(sub, list) and sub and isinstance(sub[0], ast.stmt) and not isinstance(st, (*FUNC, ast.ClassDef)):
+                changed = _acquire_release_to_with(sub) or changed
+        for h in getattr(st, 'handlers', []) or []:
+            changed = _acquire_release_to_with(h.body) or changed
+        i += 1
+    return changed
+
+
 def desugar_ifexp(modules: dict):
     for mod in modules.values():
         for node in ast.walk(mod.tree):
             if isinstance(node, FUNC):
                 _PlainAssign().generic_visit(node)
                 _IfExpDesugar().generic_visit(node)
+                _acquire_release_to_with(node.body)
         ast.fix_missing_locations(mod.tree)
 
 
@@ -555,7 +585,8 @@ def _is_classmethod(fn) -> bool:
 
 
 def _inlinable(fn) -> bool:
-    if isinstance(fn, ast.AsyncFunctionDef) or (fn.decorator_list and not (_is_static(fn) or _is_classmethod(fn))):
+    if isinstance(fn, ast.AsyncFunctionDef) or \
+            (fn.decorator_list and not (_is_static(fn) or _is_classmethod(fn) or _is_contextmanager(fn))):
         return False
     a = fn.args
     if a.posonlyargs:
@@ -566,6 +597,50 @@ def _inlinable(fn) -> bool:
         if n is not fn and isinstance(n, (*FUNC, ast.ClassDef)):
             return False
     return True
+
+
+def _is_contextmanager(fn) -> bool:
+    return len(fn.decorator_list) == 1 and ast.unparse(fn.decorator_list[0]) in ('contextmanager', 'contextlib.contextmanager')
+
+
+def _expand_contextmanager(fn, with_st, call, is_method, caller_names):
+    """`with helper(args) [as v]: BODY` for a @contextmanager helper with exactly one `yield` statement: the helper's body with
+    that statement replaced by `[v = <yielded>;] BODY`.  (An exception raised by BODY is thrown into the generator at the
+    yield - exactly what the replaced statement does inside the helper's own with / try blocks.)"""
+    if len(with_st.items) != 1:
+        raise _Bail('several context managers in one with')
+    prefix, mapping = _bind(fn, call, is_method, caller_names, fn.name)
+    body = clone(fn.body)
+    if body and isinstance(body[0], ast.Expr) and isinstance(body[0].value, ast.Constant) and isinstance(body[0].value.value, str):
+        body = body[1:]
+    yields = [n for st in body for n in ast.walk(st) if isinstance(n, ast.Yield)]
+    if len(yields) != 1 or any(isinstance(n, ast.Return) for st in body for n in ast.walk(st)):
+        raise _Bail('contextmanager with several yields / a return')
+    body = [_Subst(mapping).visit(st) for st in body]
+    target = with_st.items[0].optional_vars
+    done = [False]
+
+    class Y(ast.NodeTransformer):
+        def visit_Expr(self, st):  # noqa: N802
+            if isinstance(st.value, ast.Yield):
+                out = []
+                if target is not None:
+                    v = st.value.value if st.value.value is not None else ast.Constant(value=None)
+                    out.append(ast.copy_location(ast.Assign(targets=[clone(target)], value=v, type_comment=None), st))
+                out.extend(with_st.body)
+                done[0] = True
+                return out
+            return st
+    new = []
+    for st in body:
+        r = Y().visit(st)
+        new.extend(r if isinstance(r, list) else [r])
+    if not done[0]:
+        raise _Bail('yield is not a statement')
+    out = prefix + new
+    for st in out:
+        ast.fix_missing_locations(st)
+    return out
 
 
 def _is_generator(fn) -> bool:
@@ -860,7 +935,16 @@ def _inline_in_body(body, fn, is_target, is_method, caller_names, counter):
             rest = st.test.values[:-1]
             st.test = rest[0] if len(rest) == 1 else ast.copy_location(ast.BoolOp(op=ast.And(), values=rest), st.test)
             st.body = [inner]
-        if isinstance(st, ast.For) and _is_generator(fn):
+        if isinstance(st, ast.With) and _is_contextmanager(fn) and len(st.items) == 1 and \
+                isinstance(st.items[0].context_expr, ast.Call) and is_target(st.items[0].context_expr):
+            try:
+                new = _expand_contextmanager(fn, st, st.items[0].context_expr, is_method, caller_names)
+                body[i:i + 1] = new
+                counter['inlined'] += 1
+                continue   # the expanded statements are visited next (BODY may contain further calls)
+            except _Bail:
+                counter['bailed'] += 1
+        if isinstance(st, ast.For) and _is_generator(fn) and not _is_contextmanager(fn):
             gcall, ctr, start = None, None, None
             it = st.iter
             if isinstance(it, ast.Call) and is_target(it):
@@ -885,7 +969,7 @@ def _inline_in_body(body, fn, is_target, is_method, caller_names, counter):
                     continue
                 except _Bail:
                     counter['bailed'] += 1
-        if _is_generator(fn):
+        if _is_generator(fn) or _is_contextmanager(fn):
             call, kind = None, None
         else:
             call, kind = _call_position(st, is_target)
